@@ -16,6 +16,7 @@ type childJob struct {
 	Progress string `json:"progress"` // progress log (never a traced path in injection runs)
 	SnapDir  string `json:"snap_dir"` // if set: copy of the WAL dir after every call that returned an error
 	Views    bool   `json:"views"`    // log a digest of the running store's LoadAllEntries after every call
+	MaxFail  int    `json:"max_fail"` // if >0: after that many failed calls skip to the final close
 	Ops      []op   `json:"ops"`
 }
 
@@ -80,8 +81,12 @@ func TestC14Child(t *testing.T) {
 		}
 	}
 	ops := append([]op{{Kind: opOpen}}, job.Ops...)
+	failures := 0
 	for k, o := range ops {
 		i := k - 1
+		if job.MaxFail > 0 && failures >= job.MaxFail && !(k == len(ops)-1 && o.Kind == opClose) {
+			continue
+		}
 		if ws == nil && o.Kind != opOpen {
 			say("S %d %s", i, o.Kind)
 			continue
@@ -105,6 +110,7 @@ func TestC14Child(t *testing.T) {
 			}
 		}
 		if err != nil {
+			failures++
 			snap(i)
 			say("R %d err %s %s", i, view(), oneLine(err.Error()))
 			continue
